@@ -74,11 +74,19 @@ class Run:
         """(A) exhaustive (or simulated) check of the specification itself. A violation here means the
         specification is inconsistent: that is a machinery error, not a verdict about the code."""
         r = tlc.run_tlc(module, cfg, env=env, timeout=timeout, workers=workers, coverage=coverage,
-                        simulate=simulate, depth=depth, seed=self.seed if simulate else None)
+                        simulate=simulate, depth=depth, seed=self.seed if simulate else None,
+                        allow_timeout=(self.tier != 'quick'))
         if r.violation:
             raise tlc.MachineryError('specification-level violation in %s/%s:\n%s' % (module, cfg, r.violation[:3000]))
         self.states += r.distinct
         self.transitions += r.generated
+        if r.error == 'timeout':
+            # thorough tier only: the state space was explored breadth-first for the whole time budget without a
+            # violation; no coverage report exists for a run that was cut, exhaustiveness is not claimed for it
+            self.phases.append({'phase': 'mc', 'name': name or cfg, 'module': module, 'cfg': cfg, 'env': env or {},
+                                'distinct': r.distinct, 'generated': r.generated, 'wall_s': round(r.wall, 1),
+                                'cut_by_time_budget_s': timeout})
+            return r
         never = [a for a in must_cover if r.coverage.get(a, (0, 0))[1] == 0]
         if never:
             raise tlc.MachineryError('vacuity: actions never taken in %s/%s: %s' % (module, cfg, never))
@@ -91,11 +99,17 @@ class Run:
     def gen_replay(self, module, cfg, adapter, adapter_args=None, env=None, timeout=900, workers=8,
                    simulate=None, depth=None, name=None, replay_workers=None, seed=None, max_cases=None, keep=None):
         """(B) TLC generates behaviours / cases as JSON lines; each is replayed into the real code."""
+        if len(self.divs) >= 300 or getattr(self, 'hang_seen', False):
+            # hundreds of divergences (or a tree that hangs): the verdict cannot change any more, save the time
+            self.phases.append({'phase': 'gen_replay', 'name': name or cfg, 'module': module, 'cfg': cfg, 'env': env or {},
+                                'skipped': 'verdict already clear: %d divergences so far%s' % (
+                                    len(self.divs), ', cases timing out' if getattr(self, 'hang_seen', False) else '')})
+            return {'cases': 0, 'div': []}
         eng = replay.Engine(adapter, adapter_args, workers=replay_workers)
         try:
             r = tlc.run_tlc(module, cfg, env=env, timeout=timeout, workers=workers, on_raw=eng.feed,
                             simulate=simulate, depth=depth, seed=seed if seed is not None else self.seed,
-                            allow_timeout=(simulate is not None), stop_after=max_cases)
+                            allow_timeout=(simulate is not None or self.tier != 'quick'), stop_after=max_cases)
         finally:
             tot = eng.finish()
         if r.violation:
@@ -104,14 +118,21 @@ class Run:
             raise tlc.MachineryError('replay machinery error: %s' % tot['errors'][0])
         self.states += r.distinct
         self.transitions += r.generated
+        if tot.get('skipped_after_timeouts'):
+            self.hang_seen = True
         if keep is not None:
-            tot['div'] = [d for d in tot['div'] if keep(d)]
+            tot['div'] = [d for d in tot['div'] if keep(d) or d.get('kind') == 'timeout']
         self.absorb(tot)
         self.phases.append({'phase': 'gen_replay', 'name': name or cfg, 'module': module, 'cfg': cfg, 'env': env or {},
                             'tlc_distinct': r.distinct, 'tlc_generated': r.generated, 'cases': tot['cases'],
                             'steps': tot['steps'], 'divergences': len(tot['div']),
                             'inconclusive': tot['inconclusive'], 'wall_s': round(r.wall, 1),
                             'simulate': simulate})
+        if r.error == 'timeout' and simulate is None:
+            # thorough tier: an enumeration that does not finish inside its time budget is explored as far as the budget
+            # allows (everything generated was replayed); recorded, and the run does not claim exhaustiveness for it
+            self.phases[-1]['cut_by_time_budget_s'] = timeout
+            self.exhaustive = False
         return tot
 
     def trace_validate(self, lang_record, traces, name, lang_name=None, selftest=True, timeout=900):
